@@ -7,6 +7,7 @@ import json, os, shutil, subprocess, sys, tempfile
 agent, k, pid = sys.argv[1], sys.argv[2], sys.argv[3]
 caught = sys.argv[sys.argv.index("--caught-by") + 1] if "--caught-by" in sys.argv else ""
 skip_suite = "--skip-suite" in sys.argv
+name = sys.argv[sys.argv.index("--name") + 1] if "--name" in sys.argv else None
 patch = os.path.join(agent, f"m{k}.diff"); demo = os.path.join(agent, f"m{k}_demo.py"); notes = os.path.join(agent, f"m{k}.md")
 wt = tempfile.mkdtemp(prefix="wt-verify-"); os.rmdir(wt)
 def sh(*a, **kw): return subprocess.run(a, stdout=subprocess.PIPE, stderr=subprocess.STDOUT, **kw)
@@ -27,7 +28,7 @@ try:
     print(f"demo without change: exit {r0.returncode}; with change: exit {r1.returncode}; suite_ok={suite_ok}")
     ok = r0.returncode == 0 and r1.returncode != 0 and (suite_ok or skip_suite)
     if ok:
-        d = f"/verif/seeded/{pid}-m{k}"
+        d = f"/verif/seeded/{name or (pid + '-m' + k)}"
         os.makedirs(d, exist_ok=True)
         shutil.copy(patch, os.path.join(d, "patch.diff")); shutil.copy(demo, os.path.join(d, "demo.py"))
         if os.path.exists(notes): shutil.copy(notes, os.path.join(d, "notes.md"))
